@@ -57,6 +57,11 @@ pub struct ScenarioOpts {
     /// random non-zero base asset id, another chain id, another `max_inputs` (moves the
     /// transaction image in VM memory). 0 = never (no extra random draw).
     pub vary_params: u32,
+    /// per-mille probability (only with gas price 0) that the transaction has no base asset
+    /// coin at all: the fee coin is of another asset, the fee limit is 0, and half of
+    /// the time there is a base-asset change output and a data message of amount 0
+    /// nevertheless. 0 = never (no extra random draw).
+    pub no_base_input: u32,
 }
 
 impl Default for ScenarioOpts {
@@ -75,6 +80,7 @@ impl Default for ScenarioOpts {
             chain: 0,
             ragged_code: 0,
             vary_params: 0,
+            no_base_input: 0,
         }
     }
 }
@@ -250,8 +256,17 @@ pub fn build(rng: &mut Rng, o: &ScenarioOpts) -> Scenario {
     if rng.chance(1, 3) {
         coins.push((rng.usize_below(4), rng.usize_below(world.assets.len()), rng.below(5000)));
     }
+    let no_base = o.no_base_input > 0 && o.gas_price == 0 && rng.below(1000) < o.no_base_input as u64;
+    if no_base {
+        coins[0].1 = 1;
+        coins.retain(|c| c.1 % world.assets.len() != 0);
+    }
     let mut messages = vec![];
-    if rng.chance(1, 4) {
+    if no_base {
+        if rng.bool() {
+            messages.push((rng.usize_below(4), 0, rng.bytes(3)));
+        }
+    } else if rng.chance(1, 4) {
         let dl = 1 + rng.usize_below(20);
         let data = if rng.bool() { vec![] } else { rng.bytes(dl) };
         messages.push((rng.usize_below(4), rng.below(3000), data));
@@ -265,9 +280,13 @@ pub fn build(rng: &mut Rng, o: &ScenarioOpts) -> Scenario {
         v.dedup();
         v
     };
-    let change: Vec<usize> = present.iter().cloned().filter(|_| rng.below(10) < 7).collect();
+    let mut change: Vec<usize> = present.iter().cloned().filter(|_| rng.below(10) < 7).collect();
+    if no_base && rng.bool() {
+        // a base-asset change output although no input carries the base asset
+        change.push(0);
+    }
     let variable_outputs = rng.below(3) as usize;
-    let coin_outputs = if rng.chance(1, 3) { vec![(0usize, rng.below(500))] } else { vec![] };
+    let coin_outputs = if rng.chance(1, 3) && !no_base { vec![(0usize, rng.below(500))] } else { vec![] };
     let n_inputs = (coins.len() + messages.len() + listed.len()) as u16;
     let first_var = (listed.len() + change.len() + coin_outputs.len()) as u16;
     let env = Env {
@@ -297,7 +316,7 @@ pub fn build(rng: &mut Rng, o: &ScenarioOpts) -> Scenario {
         script: script.bytes,
         data: rng.bytes_len_class(64),
         gas_limit,
-        max_fee: if o.gas_price == 0 { rng.below(1000) } else { 900_000 },
+        max_fee: if no_base { 0 } else if o.gas_price == 0 { rng.below(1000) } else { 900_000 },
         tip: if rng.chance(1, 5) { Some(rng.below(100)) } else { None },
         coins,
         messages,
